@@ -90,7 +90,9 @@ def _classify(ctx, r, tag, env, dist, distinct, samples, lockstep=True):
     dist["verdicts"][r["verdict"]] = dist["verdicts"].get(r["verdict"], 0) + 1
     dist["max_trace"] = max(dist["max_trace"], len(r["lines"]))
     hdr = " ".join(r["header"])
-    text = "mode=%s seed=%d env=%s\n# %s\n%s" % (tag, r["seed"], env, hdr, "\n".join(r["lines"][-500:]))
+    marks = [l for l in r["lines"] if " ev ORACLE" in l or l.startswith("VERDICT") or re.match(r"\d+ race ", l)][:12]
+    text = "mode=%s seed=%d env=%s\n# %s\n# oracle / verdict lines of this run (replay with ./check C17 --replay <this file>):\n%s\n# last 500 trace lines:\n%s" % (
+        tag, r["seed"], env, hdr, "\n".join("#   " + l for l in marks), "\n".join(r["lines"][-500:]))
     f = _features(r["lines"])
     for k, v in f.items():
         dist["features"][k] = dist["features"].get(k, 0) + (1 if v else 0)
@@ -139,8 +141,7 @@ def run(ctx):
     if exe is None or seq is None:
         ctx.broke("correspondence", "harness/c17.cpp does not build against /repo", (log or "")[-1500:])
         return
-    if drv is None:
-        return
+    # without a driver (its build is broken) the search goes on with the implementation-side oracle alone
     n = 100 if ctx.quick else 2500
     if ctx.broken:
         # a proof obligation / generated obligation no longer checks: ENLARGE the search for a concrete failing
@@ -172,7 +173,7 @@ def run(ctx):
         runs = ctx.econc(exe, drv, [mode], s0, cnt, env=dict(env, VRT_STEP_LIMIT="400000"))
         dist["modes"][tag] = dist["modes"].get(tag, 0) + len(runs)
         for r in runs:
-            _classify(ctx, r, tag if "/corpus" not in tag else mode, env, dist, distinct, samples)
+            _classify(ctx, r, tag if "/corpus" not in tag else mode, env, dist, distinct, samples, lockstep=drv is not None)
             if len(ctx.failing) > 8:
                 break
         if len(ctx.failing) > 8:
@@ -182,7 +183,7 @@ def run(ctx):
         runs = ctx.econc(seq, drv, ["seq"], seed0 + 900000, 2 * n)
         dist["modes"]["seq/asan"] = len(runs)
         for r in runs:
-            _classify(ctx, r, "seq/asan", {}, dist, distinct, samples)
+            _classify(ctx, r, "seq/asan", {}, dist, distinct, samples, lockstep=drv is not None)
     # fixed cases outside the token model (oracle / sanitizer verdict only): pooled-handle move assignment,
     # BatchPageAllocator with its default batch size
     if len(ctx.failing) <= 8:
